@@ -24,10 +24,10 @@ from ..oracle import c12_brute as ob
 RULES["C12"] = (
     "Pool mesh (tetra, box, octahedron, icosphere, non-convex prism, torus, uv-sphere, one or two disjoint bodies, optional "
     "vertex jitter, optional removed faces for ray/nearest queries) under a similarity placement: scale 10^U(-2,3) with extra "
-    "weight on both ends, rotation identity / exact quarter turn / random, offset 0 / ~10 / ~1e3 mesh scales. Rays by "
+    "weight on both ends, rotation identity / exact quarter turn / random, offset 0 / ~10 / ~1e3 / 1e4..3e6 mesh scales (float64 tolerances carry 256*eps*|coords| / 64*eps*|coords| terms; embree is judged in its own shifted, scaled float32 scene). Rays by "
     "construction: target inside a face (barycentrics >= 0.05) or anywhere in the inflated box, origin >= 1e-3*diag from the "
     "surface inside the bounds / on a shell outside / 20..1000 diag away, direction target-origin (raw or unitized), exact "
-    "+-axis directions through a face point, rays pointing away. The oracle (own Moller-Trumbore over all triangles, float64) "
+    "+-axis directions through a face point, rays pointing away; optionally extra rays meeting the surface in the same points as rays already in the batch (other origins aimed at the same target, the collinear ray from the far side, the same line started further back, exact duplicates), and the last rays of a batch are also asked alone (batch answer == single-ray answer); containment batches optionally hold several points on one line parallel to the documented test direction. The oracle (own Moller-Trumbore over all triangles, float64) "
     "keeps a ray only in general position: every triangle is either crossed with all barycentrics >= 1e-3 and |n.d| >= 1e-2, "
     "or missed with a barycentric <= -1e-3 (exactly parallel triangles: ray >= 1e-3 altitude from their edges), <= 20 hits; "
     "embree (float32) is only asked about rays whose clearance from every edge exceeds 32*2^-24*(|origin-corner|+diag), and "
@@ -86,7 +86,8 @@ def placement(place):
         R = Q
     u = rs.normal(size=3)
     u /= np.linalg.norm(u)
-    off = {"zero": 0.0, "near": 10.0 * rs.uniform(0.2, 1.0), "far": 1e3 * rs.uniform(0.3, 1.0)}[place["off"]] * s * u
+    # (the extra draw for "vfar" comes last so that older saved cases keep their placement)
+    off = {"zero": 0.0, "near": 10.0 * rs.uniform(0.2, 1.0), "far": 1e3 * rs.uniform(0.3, 1.0), "vfar": 10.0 ** rs.uniform(4.0, 6.5)}[place["off"]] * s * u
     M = np.eye(4)
     M[:3, :3] = s * R
     M[:3, 3] = off
@@ -176,6 +177,34 @@ def gen_rays(rs, g, n):
             o = _origin(rs, g, okind)
             d = (o - g.centre) + rs.normal(size=3) * 0.3 * g.diag
             out.append((o, d, "away", okind))
+    return out
+
+
+def shared_rays(rs, g, rays, mode):
+    """extra rays that meet the surface in the SAME points as rays already in the batch: other origins aimed at the same
+    target, the collinear ray from the far side, the same line started further back, exact duplicates.  Drawn from
+    their own RandomState so that the base batch of a saved case does not change."""
+    out = []
+    base = [r for r in rays if r[2] in ("target", "axis")]
+    if not base:
+        return out
+    for _ in range(int(rs.randint(1, 4))):
+        o, d, kind, okind = base[int(rs.randint(len(base)))]
+        target = o + d
+        m = mode if mode != "mixed" else ["target", "collinear", "behind", "duplicate"][int(rs.randint(4))]
+        if m == "target":
+            for _ in range(int(rs.randint(1, 4))):
+                ok = ["inbox", "shell", "far"][int(rs.choice(3, p=[0.4, 0.4, 0.2]))]
+                o2 = _origin(rs, g, ok)
+                out.append((o2, target - o2, "shared_target", ok))
+        elif m == "collinear":
+            o2 = target + d * 10.0 ** rs.uniform(-1.0, 1.0)
+            out.append((o2, target - o2, "collinear_opposite", "line"))
+        elif m == "behind":
+            o2 = o - d * 10.0 ** rs.uniform(-1.0, 1.0)
+            out.append((o2, target - o2, "collinear_behind", "line"))
+        else:
+            out.append((o.copy(), d.copy(), "duplicate", okind))
     return out
 
 
@@ -328,7 +357,26 @@ def check_engine(name, eng, g, O, D, info, dirmode, multi_ok):
         _check_pairs(sig, name, _pairs(it, ir), want_pairs, im, Dm, extra)
         _check_locations(base + "|location", loc, ir, it, Om, Dm, dh[idx], im, g, loc_rel)
 
-    order = (q_multi, q_first, q_any, q_single) if name == "native" else (q_first, q_any, q_single, q_multi)
+    def q_batch():
+        """the answer for a ray must not depend on what else is in the batch: the last rays (where the rays sharing hit
+        points with others are) asked alone"""
+        idx = np.nonzero(multi_ok)[0]
+        if len(idx) < 2:
+            return
+        loc, ir, it = eng.intersects_location(O[idx].copy(), D[idx].copy())
+        batch = _pairs(it, ir)
+        for j in list(range(len(idx)))[-3:]:
+            r = int(idx[j])
+            l1, r1, t1 = eng.intersects_location(O[r : r + 1].copy(), D[r : r + 1].copy())
+            alone = sorted(int(t) for t in t1)
+            inb = sorted(t for rr, t in batch if rr == j)
+            check(alone == inb, base + "|batch_vs_single|intersects_location", lambda: f"ray {r} o={O[r].tolist()} d={D[r].tolist()}: triangles {alone} when asked alone, {inb} inside a batch of {len(idx)} rays")
+        fb = np.asarray(out["first"]).astype(np.int64)
+        for r in list(range(n))[-3:]:
+            f1 = np.asarray(eng.intersects_first(O[r : r + 1].copy(), D[r : r + 1].copy())).astype(np.int64)
+            check(len(f1) == 1 and int(f1[0]) == int(fb[r]), base + "|batch_vs_single|intersects_first", lambda: f"ray {r}: {f1.tolist()} alone, {int(fb[r])} in the batch")
+
+    order = (q_multi, q_first, q_any, q_single, q_batch) if name == "native" else (q_first, q_any, q_single, q_multi, q_batch)
     for q in order:
         q()
     return out["first"]
@@ -375,6 +423,8 @@ def b_ray(case, ctx):
         g = Geo(case)
         rs = np.random.RandomState(int(case["seed"]) & 0x7FFFFFFF)
         rays = gen_rays(rs, g, int(case["n"]))
+        if case.get("share"):
+            rays = rays + shared_rays(np.random.RandomState((int(case["seed"]) ^ 0x5BD1E995) & 0x7FFFFFFF), g, rays, case["share"])
         if case.get("only") is not None:
             rays = [rays[i] for i in case["only"] if i < len(rays)]
         margin = MARGIN * g.diag
@@ -414,7 +464,16 @@ def b_ray(case, ctx):
             if okind == "inbox" and k:
                 ctx.note(cls="origin:inbox_with_hit")
         engine = case["engine"]
-        ctx.note(nontrivial=sum(nh) > 0, cls=[f"engine:{engine}", f"dir:{dirmode}", scale_class(g.diag), "place:" + case["place"]["rot"] + "/" + case["place"]["off"]])
+        ctx.note(nontrivial=sum(nh) > 0, cls=[f"engine:{engine}", f"dir:{dirmode}", scale_class(g.diag), "place:" + case["place"]["rot"] + "/" + case["place"]["off"], "ray_offset:" + case["place"]["off"]])
+        # hit points shared between different rays of this batch (the oracle's own points, 1e-7*diag apart)
+        pts_r = [(r, O[r] + D[r] * t) for r in range(len(O)) for t, _ in info[r]["hits"]]
+        if len(pts_r) > 1:
+            Q = np.array([q for _, q in pts_r])
+            R = np.array([r for r, _ in pts_r])
+            dd = np.linalg.norm(Q[:, None, :] - Q[None, :, :], axis=-1)
+            nshare = int(((dd < 1e-7 * g.diag) & (R[:, None] != R[None, :])).sum() // 2)
+            if nshare:
+                ctx.note(cls="batch:hit_point_shared_by_two_rays")
         first = {}
         if engine in ("native", "both"):
             eng = ray_triangle.RayMeshIntersector(g.mesh)
@@ -521,12 +580,25 @@ def embree_contains_cause(g, hits_f, hits_b, cos_f, cos_b):
     return "", step
 
 
+def line_points(rs, g, pts):
+    """extra query points on the line through an existing query point parallel to the documented fixed test direction
+    of contains_points: their test rays meet the surface in the same points (own RandomState, see shared_rays)"""
+    out = []
+    for _ in range(int(rs.randint(1, 4))):
+        p, lab = pts[int(rs.randint(len(pts)))]
+        for _ in range(int(rs.randint(1, 3))):
+            out.append((p + DEFAULT_DIRECTION * g.diag * rs.uniform(-1.0, 1.0), "on_test_line"))
+    return out
+
+
 @body("C12.contains")
 def b_contains(case, ctx):
     with np.errstate(all="ignore"):
         g = Geo(case)
         rs = np.random.RandomState(int(case["seed"]) & 0x7FFFFFFF)
         pts = gen_points(rs, g, int(case["n"]))
+        if case.get("line"):
+            pts = pts + line_points(np.random.RandomState((int(case["seed"]) ^ 0x5BD1E995) & 0x7FFFFFFF), g, pts)
         if case.get("only") is not None:
             pts = [pts[i] for i in case["only"] if i < len(pts)]
         margin = MARGIN * g.diag
@@ -559,7 +631,7 @@ def b_contains(case, ctx):
         engine = case["engine"]
         for i in range(n):
             ctx.note(cls=["cpoint_kept", "cpoint:" + labels[i], "cloc:" + ("inside" if inside[i] else "outside_in_box" if inbox[i] else "outside_box"), "cpoint_rays:" + ("gp" if gp[i] else "nongp")])
-        ctx.note(nontrivial=True, cls=[f"contains_engine:{engine}", scale_class(g.diag)])
+        ctx.note(nontrivial=True, cls=[f"contains_engine:{engine}", scale_class(g.diag), "contains_offset:" + case["place"]["off"]])
         if engine == "native":
             eng = ray_triangle.RayMeshIntersector(g.mesh)
             sel = np.arange(n)
@@ -629,7 +701,7 @@ def b_prox(case, ctx):
         P = np.array(P)
         n = len(P)
         m = g.mesh
-        ctx.note(nontrivial=True, cls=[scale_class(g.diag), "prox_mesh:" + ("closed" if g.closed else "open")])
+        ctx.note(nontrivial=True, cls=[scale_class(g.diag), "prox_mesh:" + ("closed" if g.closed else "open"), "prox_offset:" + case["place"]["off"]])
         for i in range(n):
             ctx.note(cls=["ppoint_kept", "ppoint:" + labels[i], "closest_feature:" + {"f": "face", "e": "edge", "v": "vertex"}[ref[i][3]]])
 
@@ -701,7 +773,7 @@ def place_st(draw):
     return {
         "log10s": draw(st.one_of(_f(-2.0, 3.0), _f(-2.0, -1.3), _f(2.3, 3.0), st.sampled_from([-2.0, -1.0, 0.0, 1.0, 2.0, 3.0]))),
         "rot": draw(st.sampled_from(["id", "quarter", "random", "random"])),
-        "off": draw(st.sampled_from(["zero", "near", "near", "far"])),
+        "off": draw(st.sampled_from(["zero", "near", "near", "far", "vfar"])),
         "rseed": draw(st.integers(0, 2**31 - 1)),
     }
 
@@ -724,6 +796,9 @@ def ray_case(draw, engines=("native", "embree", "both")):
     case = draw(base_case())
     case["dir"] = draw(st.sampled_from(["unit", "unit", "raw"]))
     case["engine"] = draw(st.sampled_from(list(engines)))
+    share = draw(st.sampled_from([None, "target", "collinear", "mixed", "mixed"]))
+    if share:
+        case["share"] = share
     return case
 
 
@@ -731,6 +806,8 @@ def ray_case(draw, engines=("native", "embree", "both")):
 def contains_case(draw):
     case = draw(base_case(allow_drop=False))
     case["engine"] = draw(st.sampled_from(["native", "embree"]))
+    if draw(st.booleans()):
+        case["line"] = True
     return case
 
 
@@ -786,4 +863,13 @@ REQUIRED_CLASSES["C12"] = [
     "contains_engine:embree",
     "dir:raw",
     "dir:unit",
+    "ray:shared_target",
+    "ray:collinear_opposite",
+    "ray:collinear_behind",
+    "ray:duplicate",
+    "batch:hit_point_shared_by_two_rays",
+    "cpoint:on_test_line",
+    "ray_offset:vfar",
+    "contains_offset:vfar",
+    "prox_offset:vfar",
 ]
